@@ -11,9 +11,13 @@ import Mathlib.Tactic.Ring
 import Mathlib.Tactic.NormNum
 import Mathlib.Tactic.FieldSimp
 import Mathlib.Tactic.Linarith
+import TamocV.Lemmas.C13
+
+set_option linter.unusedSimpArgs false
+set_option linter.unusedVariables false
 
 namespace TamocV.Props.C13
-open TamocV
+open TamocV TamocV.Gen TamocV.Lemmas.C20 TamocV.Lemmas.C13
 
 /-- Below 40 °C the density computed by `seawater.density` IS the EOS-80 density at
     t = T − 273.15 °C, p = P·10⁻⁵ bar, for every real T, S, P (no range restriction:
@@ -30,6 +34,197 @@ theorem density_eq_eos80 (T S P : ℝ) (hT : T < 273.15 + 40) :
   norm_num
   ring_nf
 
-end TamocV.Props.C13
+/-! ### Published check values (UNESCO Tech. Pap. Mar. Sci. 44, 1983, p. 19), to half a unit of the last
+    published digit.  S = 0 by exact rational arithmetic; S = 35 through the bracket
+    207.06279 ≤ 35^(3/2) ≤ 207.06281 (the density is a linear-fractional function of S^(3/2)). -/
 
-#print axioms TamocV.Props.C13.density_eq_eos80
+theorem check_rho_0_5_0 : |SeawaterPy.density (278.15 : ℝ) 0 0 - 999.96675| ≤ 5e-6 := by
+  have h : (278.15:ℝ) < 273.15 + 40 := by norm_num
+  simp only [SeawaterPy.density, Num.real_ofSci, Num.real_ofNat, Num.real_one, Num.real_zero, Num.real_npow,
+    Num.real_rpow, if_pos h]
+  have h0 : (0:ℝ) ^ ((3.0:ℝ) / 2.0) = 0 := Real.zero_rpow (by norm_num)
+  rw [h0]
+  norm_num [abs_le]
+
+theorem check_rho_0_5_1000 : |SeawaterPy.density (278.15 : ℝ) 0 1e8 - 1044.12802| ≤ 5e-6 := by
+  have h : (278.15:ℝ) < 273.15 + 40 := by norm_num
+  simp only [SeawaterPy.density, Num.real_ofSci, Num.real_ofNat, Num.real_one, Num.real_zero, Num.real_npow,
+    Num.real_rpow, if_pos h]
+  have h0 : (0:ℝ) ^ ((3.0:ℝ) / 2.0) = 0 := Real.zero_rpow (by norm_num)
+  rw [h0]
+  norm_num [abs_le]
+
+theorem check_rho_0_25_0 : |SeawaterPy.density (298.15 : ℝ) 0 0 - 997.04796| ≤ 5e-6 := by
+  have h : (298.15:ℝ) < 273.15 + 40 := by norm_num
+  simp only [SeawaterPy.density, Num.real_ofSci, Num.real_ofNat, Num.real_one, Num.real_zero, Num.real_npow,
+    Num.real_rpow, if_pos h]
+  have h0 : (0:ℝ) ^ ((3.0:ℝ) / 2.0) = 0 := Real.zero_rpow (by norm_num)
+  rw [h0]
+  norm_num [abs_le]
+
+theorem check_rho_0_25_1000 : |SeawaterPy.density (298.15 : ℝ) 0 1e8 - 1037.90204| ≤ 5e-6 := by
+  have h : (298.15:ℝ) < 273.15 + 40 := by norm_num
+  simp only [SeawaterPy.density, Num.real_ofSci, Num.real_ofNat, Num.real_one, Num.real_zero, Num.real_npow,
+    Num.real_rpow, if_pos h]
+  have h0 : (0:ℝ) ^ ((3.0:ℝ) / 2.0) = 0 := Real.zero_rpow (by norm_num)
+  rw [h0]
+  norm_num [abs_le]
+
+theorem check_rho_35_5_0 : |SeawaterPy.density (278.15 : ℝ) 35 0 - 1027.67547| ≤ 5e-6 := by
+  have h : (278.15:ℝ) < 273.15 + 40 := by norm_num
+  simp only [SeawaterPy.density, Num.real_ofSci, Num.real_ofNat, Num.real_one, Num.real_zero, Num.real_npow,
+    Num.real_rpow, if_pos h]
+  obtain ⟨hlo, hhi⟩ := s35_bracket
+  generalize (35:ℝ) ^ ((3.0:ℝ) / 2.0) = s at *
+  norm_num [abs_le]
+  constructor <;> linarith
+
+theorem check_rho_35_5_1000 : |SeawaterPy.density (278.15 : ℝ) 35 1e8 - 1069.48914| ≤ 5e-6 := by
+  have h : (278.15:ℝ) < 273.15 + 40 := by norm_num
+  simp only [SeawaterPy.density, Num.real_ofSci, Num.real_ofNat, Num.real_one, Num.real_zero, Num.real_npow,
+    Num.real_rpow, if_pos h]
+  obtain ⟨hlo, hhi⟩ := s35_bracket
+  generalize (35:ℝ) ^ ((3.0:ℝ) / 2.0) = s at *
+  apply frac_abs
+  · norm_num; linarith
+  · norm_num
+  · norm_num; nlinarith
+  · norm_num; nlinarith
+
+theorem check_rho_35_25_0 : |SeawaterPy.density (298.15 : ℝ) 35 0 - 1023.34306| ≤ 5e-6 := by
+  have h : (298.15:ℝ) < 273.15 + 40 := by norm_num
+  simp only [SeawaterPy.density, Num.real_ofSci, Num.real_ofNat, Num.real_one, Num.real_zero, Num.real_npow,
+    Num.real_rpow, if_pos h]
+  obtain ⟨hlo, hhi⟩ := s35_bracket
+  generalize (35:ℝ) ^ ((3.0:ℝ) / 2.0) = s at *
+  norm_num [abs_le]
+  constructor <;> linarith
+
+theorem check_rho_35_25_1000 : |SeawaterPy.density (298.15 : ℝ) 35 1e8 - 1062.53817| ≤ 5e-6 := by
+  have h : (298.15:ℝ) < 273.15 + 40 := by norm_num
+  simp only [SeawaterPy.density, Num.real_ofSci, Num.real_ofNat, Num.real_one, Num.real_zero, Num.real_npow,
+    Num.real_rpow, if_pos h]
+  obtain ⟨hlo, hhi⟩ := s35_bracket
+  generalize (35:ℝ) ^ ((3.0:ℝ) / 2.0) = s at *
+  apply frac_abs
+  · norm_num; linarith
+  · norm_num
+  · norm_num; nlinarith
+  · norm_num; nlinarith
+
+/-! ### Monotonicity and positivity on the oceanic range -/
+
+/-- **Below 40 °C the density increases strictly with pressure** on the oceanic box -/
+theorem density_mono_P (T S P1 P2 : ℝ) (hT0 : 271 ≤ T) (hT1 : T < 273.15 + 40) (hS0 : 0 ≤ S) (hS1 : S ≤ 42)
+    (hP0 : 0 ≤ P1) (h12 : P1 < P2) (hP2 : P2 ≤ 1.1e8) :
+    SeawaterPy.density T S P1 < SeawaterPy.density T S P2 := by
+  rw [density_grouped T S P1 hT1, density_grouped T S P2 hT1]
+  obtain ⟨hs0, hs1⟩ := s32_bound S hS0 hS1
+  set t := T - 273.15 with ht
+  set s := S ^ ((3.0:ℝ)/2.0) with hs
+  have h1 : -2.15 ≤ t := by rw [ht]; linarith
+  have h2 : t ≤ 40 := by rw [ht]; linarith
+  have hp1 : 0 ≤ P1 * 0.00001 := by positivity
+  have hp2 : P2 * 0.00001 ≤ 1100 := by nlinarith
+  have hp12 : P1 * 0.00001 < P2 * 0.00001 := by nlinarith
+  have hKform : ∀ p, K0 t S s + KA t S s * p + KB t S * (p * p) =
+      Kw t + S * k1 t + s * k2 t + p * (Aw t + S * a1 t + 0.000191075 * s) + p * p * (Bw t + S * b1 t) := by
+    intro p; unfold K0 KA KB; ring
+  have hKlow : ∀ p, 0 ≤ p → p ≤ 1100 → 19200 + 3 * p ≤ K0 t S s + KA t S s * p + KB t S * (p * p) := by
+    intro p hp0 hp1'
+    rw [hKform p]
+    exact K_combine (Kw t) (k1 t) (k2 t) (Aw t) (a1 t) (Bw t) (b1 t) S s p
+      (by unfold Kw; exact Kw_lb t h1 h2) (by unfold k1; exact k1_lb t h1 h2) (by unfold k2; exact k2_lb t h1 h2)
+      (by unfold Aw; exact Aw_lb t h1 h2) (by unfold a1; exact a1_lb t h1 h2) (by unfold Bw; exact Bw_lb t h1 h2)
+      (by unfold b1; exact b1_lb t h1 h2) hS0 hS1 hs0 hs1 hp0 hp1'
+  have hK0 : 19200 ≤ K0 t S s := by
+    have := hKlow 0 (le_refl 0) (by norm_num)
+    simpa using this
+  have hKB : KB t S ≤ 0.00016 := by
+    unfold KB
+    have := Bw_ub t h1 h2
+    have := b1_ub t h1 h2
+    nlinarith
+  apply frac_mono _ _ _ _ _ _ (by have := N0_pos t S s h1 h2 hS0 hS1 hs0 hs1; linarith) hp12 hp1
+  · have := hKlow (P1 * 0.00001) hp1 (by linarith); linarith
+  · have := hKlow (P2 * 0.00001) (by linarith) hp2; linarith
+  · have hpp : P1 * 0.00001 * (P2 * 0.00001) ≤ 1100 * 1100 := by
+      apply mul_le_mul (by linarith) hp2 (by linarith) (by norm_num)
+    have hpp0 : 0 ≤ P1 * 0.00001 * (P2 * 0.00001) := mul_nonneg hp1 (by linarith)
+    nlinarith
+
+theorem mu_pos (T S P : ℝ) (hT0 : 271 ≤ T) (hT1 : T ≤ 373.15) (hS0 : 0 ≤ S) (hP : 0 ≤ P) :
+    0 < SeawaterPy.mu T S P := by
+  simp only [SeawaterPy.mu, Num.real_ofSci, Num.real_ofNat, Num.real_one, Num.real_zero, Num.real_npow]
+  set t := T - 273.15 with ht
+  have ht0 : -2.15 ≤ t := by rw [ht]; linarith
+  have ht1 : t ≤ 100 := by rw [ht]; linarith
+  have hq : 0 < 0.15700386464 * (t + 64.99262005) ^ 2 + -91.296496657 := by
+    have h : 62.84262005 ≤ t + 64.99262005 := by linarith
+    have h2 : (62.84262005:ℝ)^2 ≤ (t + 64.99262005)^2 := pow_le_pow_left₀ (by norm_num) h 2
+    nlinarith
+  have hmuw : 0 < 0.000042844324477 + 1.0 / (0.15700386464 * (t + 64.99262005) ^ 2 + -91.296496657) := by
+    have := one_div_pos.mpr hq
+    have h1 : (1.0:ℝ) / (0.15700386464 * (t + 64.99262005) ^ 2 + -91.296496657) = 1 / (0.15700386464 * (t + 64.99262005) ^ 2 + -91.296496657) := by norm_num
+    rw [h1]; linarith
+  have hA : 0 ≤ 1.540913604 + 0.019981117208 * t + -0.000095203865864 * t ^ 2 := by
+    nlinarith [mul_nonneg (by linarith : (0:ℝ) ≤ t + 2.15) (by linarith : (0:ℝ) ≤ 100 - t)]
+  have hB : 0 ≤ 7.9739318223 + -0.075614568881 * t + 0.00047237011074 * t ^ 2 := by
+    nlinarith [sq_nonneg (t - 80)]
+  have hs : 0 ≤ S / 1000.0 := by positivity
+  have hF : 0 < 1.0 + (1.540913604 + 0.019981117208 * t + -0.000095203865864 * t ^ 2) * (S / 1000.0) +
+      (7.9739318223 + -0.075614568881 * t + 0.00047237011074 * t ^ 2) * (S / 1000.0) ^ 2 := by
+    have := mul_nonneg hA hs
+    have := mul_nonneg hB (sq_nonneg (S / 1000.0))
+    linarith
+  have hPf : 0 < 0.9994 + 0.000040295 * (P * 0.00014503773800721815) + 0.0000000031062 * (P * 0.00014503773800721815) ^ 2 := by
+    positivity
+  exact mul_pos (mul_pos hmuw hF) hPf
+
+theorem sigma_pos (T S : ℝ) (hT0 : 271 ≤ T) (hT1 : T ≤ 373.15) (hS0 : 0 ≤ S) (hS1 : S ≤ 42) :
+    0 < SeawaterPy.sigma T S := by
+  simp only [SeawaterPy.sigma, Num.real_ofSci, Num.real_ofNat, Num.real_one, Num.real_zero, Num.real_npow,
+    Num.real_rpow, Num.real_log]
+  have hx : 0 < 1.0 - (T - 273.15 + 273.15) / 647.096 := by
+    have : (T - 273.15 + 273.15) / 647.096 < 1 := by rw [div_lt_one (by norm_num)]; linarith
+    linarith
+  have hw : 0 < 0.2358 * (1.0 - (T - 273.15 + 273.15) / 647.096) ^ (1.256:ℝ) *
+      (1.0 - 0.625 * (1.0 - (T - 273.15 + 273.15) / 647.096)) := by
+    have h1 : 0 < (1.0 - (T - 273.15 + 273.15) / 647.096) ^ (1.256:ℝ) := Real.rpow_pos_of_pos hx _
+    have h2 : (1.0 - (T - 273.15 + 273.15) / 647.096) ≤ 1 := by
+      have : 0 ≤ (T - 273.15 + 273.15) / 647.096 := by apply div_nonneg <;> linarith
+      linarith
+    have h3 : 0 < 1.0 - 0.625 * (1.0 - (T - 273.15 + 273.15) / 647.096) := by nlinarith
+    positivity
+  split_ifs with hc
+  · apply mul_pos hw
+    have hlog : 0 ≤ Real.log (1.0 + 0.0331 * (S / 1000.0)) := by
+      apply Real.log_nonneg
+      have : 0 ≤ 0.0331 * (S / 1000.0) := by positivity
+      linarith
+    have hc1 : 0 ≤ 0.000226 * (T - 273.15) + 0.00946 := by linarith
+    have := mul_nonneg hc1 hlog
+    linarith
+  · exact hw
+
+theorem k_pos_cold (T S P : ℝ) (hT0 : 271 ≤ T) (hP0 : 0 ≤ P)
+    (hc : (T - 0.0682875) / (1.0 - 0.00025) - 273.15 < (30.0:ℝ)) : 0 < SeawaterPy.k T S P := by
+  simp only [SeawaterPy.k, Num.real_ofSci, Num.real_ofNat, Num.real_one, Num.real_zero, Num.real_npow]
+  rw [if_pos hc]
+  have hu0 : -2.3 ≤ (T - 0.0682875) / (1.0 - 0.00025) - 273.15 := by
+    have h9 : (1.0 - 0.00025 : ℝ) = 0.99975 := by norm_num
+    rw [h9]
+    have : 270.9 ≤ (T - 0.0682875) / 0.99975 := by
+      rw [le_div_iff₀ (by norm_num)]; linarith
+    linarith
+  have hu1 : (T - 0.0682875) / (1.0 - 0.00025) - 273.15 ≤ 30 := by
+    have : (30.0:ℝ) = 30 := by norm_num
+    linarith
+  generalize (T - 0.0682875) / (1.0 - 0.00025) - 273.15 = u at *
+  have hp : 0 ≤ 0.00034025 * (P * 0.000001) := by positivity
+  have hcub : 0.55286 + 0.0018364 * u - 0.00000033058 * u ^ 3 > 0 := by
+    nlinarith [mul_nonneg (by linarith : (0:ℝ) ≤ u + 2.3) (by linarith : (0:ℝ) ≤ 30 - u), sq_nonneg u,
+      mul_nonneg (mul_nonneg (by linarith : (0:ℝ) ≤ u + 2.3) (by linarith : (0:ℝ) ≤ 30 - u)) (by linarith : (0:ℝ) ≤ u + 2.3)]
+  linarith
+
+end TamocV.Props.C13
